@@ -63,6 +63,13 @@ fn build(w: &World, r: &Reg) -> Option<Signer> {
 }
 
 pub fn replay(scratch: &std::path::Path, regs: &[Reg]) -> RunResult {
+    match mc_core::catch(|| replay_inner(scratch, regs)) {
+        Ok(r) => r,
+        Err(e) => crate::sys::panic_result(e),
+    }
+}
+
+fn replay_inner(scratch: &std::path::Path, regs: &[Reg]) -> RunResult {
     let dir = fresh_dir(scratch);
     let rt = tokio::runtime::Builder::new_current_thread().enable_all().build().expect("tokio runtime");
     let replay_json = json!({"registrations": regs});
